@@ -149,6 +149,13 @@ def check(ctx, report):
     report.rule('C04.R8', 'framing unit: the length reported with the record is the number of bytes the record occupied')
     return_lengths(ctx, report, RULE='C04.R8', only={n for n, _k, _kind in FRAMING} | framing_subclasses(ctx))
     report.floor('C04.R8', 8, 'framing unit parse results')
+    # a handshake message is parsed inside the payload bytes its header declares: a field parser that runs on into the bytes of the
+    # next message reports a missing-byte count for data the sender never writes for *this* message (rule shared with C03.R5; the
+    # two record layers whose containment is an open finding of C03 are left to C03)
+    from .c03 import containment
+    report.rule('C04.R9', 'handshake messages: the fields after the declared length are parsed inside the declared payload bytes')
+    containment(ctx, report, RULE='C04.R9', only=lambda cname, lenkey, kind: lenkey == 'payload')
+    report.floor('C04.R9', 5, 'handshake framing units')
 
 
 def framing_subclasses(ctx):
